@@ -1029,7 +1029,13 @@ class Pool:
                 p.join(5)
             elif not p.is_alive():
                 p.join()
-                out = Outcome(name, "error", time.time() - t0, reason=f"worker exited with {p.exitcode}")
+                if pc.poll(0.2):    # the result may have arrived between the two tests above
+                    try:
+                        out = pc.recv()
+                    except EOFError:
+                        out = None
+                if out is None:
+                    out = Outcome(name, "error", time.time() - t0, reason=f"worker exited with {p.exitcode}")
             elif time.time() - t0 > to * 1.5 + 20:
                 p.kill()
                 p.join()
@@ -1145,6 +1151,15 @@ class Session:
         strings = harvest_strings(tests_dir) + list(extra)
         ok = True
         info = {}
+        # the circuit models the master regex; if a token action re-types or drops tokens (so that the public tokenizer
+        # disagrees with the loop model) the lexer is outside the encodable fragment: exit 2, not a harness error
+        n0 = min(self.engines)
+        for smp in lex1_samples(self.spec, strings, n0, self.alphabet):
+            real = self.spec.real_lex1(smp)
+            tok = self.spec.tokenize_first(smp)
+            if tok is not None and real[0] not in ("EOF", "IGNORE") and tok != real:
+                raise NotEncodable(f"the public tokenizer yields {tok} where the master regex yields {real} on {smp!r}: "
+                                   "a token action changes token types / extents, which the regex circuit does not model")
         for N, eng in self.engines.items():
             samples = lex1_samples(self.spec, strings, N, self.alphabet)
             v = validate(eng, self.texts[N], samples, z3_cap, seed=run.seed)
@@ -1485,30 +1500,26 @@ def ob_progress(sess: Session, name: str, family: str, N: int, timeout: Optional
     return Obligation(name, family, N, build, replay, [], timeout=timeout)
 
 
-def ob_no_empty_rule(sess: Session, name: str, family: str, N: int, timeout: Optional[float] = None) -> Obligation:
-    """no token rule, tried on its own at any text (also shadowed ones, also at the end of the text), matches the empty string."""
+def ob_rule_extents(sess: Session, name: str, family: str, N: int, rule: str, timeout: Optional[float] = None) -> Obligation:
+    """token rule `rule`, tried on its own at the start of any text (also when shadowed, also on the empty text), either
+    fails or matches at least one character: it does not match the empty string."""
 
     def build(txt: SymText, excl: List[Region]) -> Query:
-        R = pos_var("rule")
-        alts = [z3.And(R == i, txt.rule_end(nm) == 0) for i, nm in enumerate(txt.eng.names)]
-        return Query(name, [txt.L >= 0], [z3.Or(alts)], {"t": txt}, {"rule": R}, minimise=txt.L, family=family)
+        e = txt.rule_end(rule)
+        # (extent <= |text| is a guarantee of the re module itself - match.end() never exceeds the text - and is not re-proved)
+        return Query(name, [txt.L >= 0], [e != FAIL, e <= 0], {"t": txt}, {}, minimise=txt.L, family=family)
 
     def replay(w: dict) -> dict:
         t = w["texts"]["t"]
         text, prev = t["text"], t["prev"]
-        nm = sess.spec and next(iter(sess.engines.values())).names[w["ints"]["rule"]]
-        # the rule on its own: its named group of the live master pattern, compiled alone by the real engine
-        parsed = re.compile(sess.spec.pattern, sess.spec.flags)
-        m = None
-        try:
-            sub = _rule_source(sess.spec.pattern, nm)
-            m = re.compile(sub, sess.spec.flags).match(prev + text, len(prev))
+        try:   # the rule on its own: its named group of the live master pattern, compiled alone by the real engine
+            m = re.compile(_rule_source(sess.spec.pattern, rule), sess.spec.flags).match(prev + text, len(prev))
         except Exception as e:  # noqa: BLE001
-            return {"consistent": False, "why": f"cannot isolate rule {nm}: {e!r}"}
-        del parsed
-        empty = m is not None and m.end() == len(prev)
-        return {"consistent": True, "reproduced": empty, "lexeme": text, "text": text, "prev": prev, "expected": "no empty match",
-                "real": [nm, 0 if empty else None], "what": f"token rule {nm} matches the empty string at the start of {text!r}"}
+            return {"consistent": False, "why": f"cannot isolate rule {rule}: {e!r}"}
+        bad = m is not None and not (1 <= m.end() - len(prev) <= len(text))
+        return {"consistent": True, "reproduced": bad, "lexeme": text, "text": text, "prev": prev, "expected": "extent in 1..|text|",
+                "real": [rule, (m.end() - len(prev)) if m else None],
+                "what": f"token rule {rule} matches the empty string at the start of {text!r} (tokenize would never advance)"}
 
     return Obligation(name, family, N, build, replay, [], timeout=timeout)
 
@@ -1539,3 +1550,141 @@ def _rule_source(master: str, name: str) -> str:
                 return master[start:i + 1]
         i += 1
     raise ValueError(name)
+
+
+def ob_rule_excludes(sess: Session, name: str, family: str, N: int, rule: str, chars: str,
+                     timeout: Optional[float] = None) -> Obligation:
+    """L(rule) contains no string with a character of `chars`: forall text, if `rule` matches c[0:e) then no c[i<e] in chars.
+    (reusable, e.g. C07: an identifier token can never contain a double quote)"""
+
+    def build(txt: SymText, excl: List[Region]) -> Query:
+        e = txt.rule_end(rule)
+        bad = txt.eng.alphabet.idx(chars)
+        hit = z3.Or([z3.And(e > i, txt.incls(i, bad)) for i in range(txt.N)])
+        return Query(name, [e != FAIL], [hit], {"t": txt}, {}, minimise=txt.L, family=family)
+
+    def replay(w: dict) -> dict:
+        t = w["texts"]["t"]
+        text, prev = t["text"], t["prev"]
+        try:
+            m = re.compile(_rule_source(sess.spec.pattern, rule), sess.spec.flags).match(prev + text, len(prev))
+        except Exception as e:  # noqa: BLE001
+            return {"consistent": False, "why": f"cannot isolate rule {rule}: {e!r}"}
+        lexeme = m.group() if m else ""
+        return {"consistent": True, "reproduced": any(ch in lexeme for ch in chars), "lexeme": lexeme, "text": text, "prev": prev,
+                "expected": f"no character of {chars!r}", "real": [rule, len(lexeme)],
+                "what": f"token rule {rule} matches {lexeme!r}, which contains a character of {chars!r}"}
+
+    return Obligation(name, family, N, build, replay, [], timeout=timeout)
+
+
+# --------------------------------------------------------------------------------------------------
+# self-test mutants of the *encoding input* (vacuity guard, DESIGN.md section 6): no file is written anywhere -
+# a mutant is just another master pattern handed to the same machinery, replayed against re.compile(mutant)
+# --------------------------------------------------------------------------------------------------
+class Collector:
+    """Run look-alike for self-tests: records outcomes, prints nothing, writes nothing."""
+
+    def __init__(self, run):
+        self.pid, self.tier, self.seed = run.pid, run.tier, run.seed
+        self.obls: List[dict] = []
+        self.notes: List[str] = []
+        self.extra: Dict[str, Any] = {}
+        self.assumptions: List[str] = []
+        self.traces_validated = 0
+
+    def add(self, name, status, family="", detail=None, solver_s=0.0, nontrivial=True):
+        self.obls.append({"name": name, "status": status, "family": family, "detail": detail})
+
+    def discharged(self, name, family="", solver_s=0.0, detail=None, nontrivial=True):
+        self.add(name, "discharged", family, detail)
+
+    def inconclusive(self, name, family="", why=None, solver_s=0.0):
+        self.add(name, "inconclusive", family, why)
+
+    def harness_error(self, name, family="", why=None, solver_s=0.0):
+        self.add(name, "harness_error", family, why)
+
+    def violation(self, name, witness, what, family="", solver_s=0.0):
+        self.add(name, "violation", family, {"what": what, "witness": witness})
+        return ""
+
+    def known_finding(self, entry, what, name="", family="", solver_s=0.0, detail=None):
+        self.add(name, "known", family, detail)
+
+    def match_known(self, predicate):
+        return None
+
+    def encode(self, *names):
+        pass
+
+
+def swap_rules(pattern: str, a: str, b: str) -> str:
+    sa, sb = _rule_source(pattern, a), _rule_source(pattern, b)
+    return pattern.replace(sa, "\0A\0").replace(sb, sa).replace("\0A\0", sb)
+
+
+@dataclass
+class Mutant:
+    name: str
+    edit: Callable[[LexSpec], Optional[LexSpec]]     # None: not applicable to the current pattern
+    expect: Sequence[str]                             # prefixes of obligation names one of which must be violated
+
+
+def respec(spec: LexSpec, pattern: Optional[str] = None, flags: Optional[int] = None) -> Optional[LexSpec]:
+    pattern = spec.pattern if pattern is None else pattern
+    flags = spec.flags if flags is None else flags
+    if pattern == spec.pattern and flags == spec.flags:
+        return None
+    try:
+        return LexSpec(pattern, flags, spec.literals, spec.ignore, spec.remapping, origin="self-test mutant")
+    except re.error:
+        return None
+
+
+def edit_replace(old: str, new: str) -> Callable[[LexSpec], Optional[LexSpec]]:
+    return lambda spec: respec(spec, spec.pattern.replace(old, new)) if old in spec.pattern else None
+
+
+def edit_swap(a: str, b: str) -> Callable[[LexSpec], Optional[LexSpec]]:
+    def f(spec: LexSpec) -> Optional[LexSpec]:
+        try:
+            return respec(spec, swap_rules(spec.pattern, a, b))
+        except ValueError:
+            return None
+    return f
+
+
+def selftest(run, live: LexSpec, mutants: Sequence[Mutant], bounds: Iterable[int], ref_patterns: Iterable[Tuple[str, int]],
+             make: Callable[[Session], List[Obligation]], timeout: float, progress: bool = False) -> None:
+    """Every mutant must make at least one obligation whose name starts with one of `expect` fail (replayed on the
+    mutant regex).  A mutant that goes undetected is a harness error of the check."""
+    report: Dict[str, Any] = {}
+    for mu in mutants:
+        spec = mu.edit(live)
+        if spec is None:
+            report[mu.name] = "not applicable to the current pattern"
+            continue
+        col = Collector(run)
+        try:
+            sess = Session(col, bounds, ref_patterns, spec=spec)
+        except NotEncodable as e:
+            report[mu.name] = f"mutant not encodable: {e}"
+            continue
+        obs = [o for o in make(sess) if any(o.name.startswith(p) for p in mu.expect)]
+        sess.drive(obs, timeout=timeout, max_rounds=1, progress=progress)
+        hit = [o for o in col.obls if o["status"] == "violation"]
+        herr = [o for o in col.obls if o["status"] == "harness_error"]
+        if hit and not herr:
+            report[mu.name] = {"detected_by": hit[0]["name"], "what": hit[0]["detail"]["what"]}
+            run.add(f"selftest:{mu.name}", "selftest-detected", "selftest", report[mu.name], nontrivial=False)
+        else:
+            report[mu.name] = {"detected_by": None, "outcomes": [(o["name"], o["status"]) for o in col.obls][:6]}
+            run.harness_error(f"selftest:{mu.name}", "selftest",
+                              f"the seeded mutant was not detected by {list(mu.expect)}: {report[mu.name]['outcomes']}")
+    run.extra["selftest_mutants"] = report
+
+
+def attach_results(run, cap: int = 600) -> None:
+    """Per-obligation results (name, status, solver seconds) into the evidence file."""
+    run.extra["obligation_results"] = [[o["name"][:160], o["status"], o["solver_s"]] for o in run.obls[:cap]]
